@@ -291,7 +291,10 @@ class Lexer:
             if char is not None and char in "+-":
                 self._position += 1
 
-            self._read_over_integer()
+            # ExponentPart :: ExponentIndicator Sign? Digit+ -- unlike the
+            # integer part the digits may start with zeros (``1e-07``, which
+            # is also how Python, hence the schema printer, writes 1e-7).
+            self._read_over_digits()
 
         # Explicit lookahead restrictions.
         try:
